@@ -233,17 +233,23 @@ func freshFor(sc *HScenario, lv *liveValue) *coregex.Regex {
 // pure divergence between engines - C12/C14/C19 territory, which this technique
 // does not decide - and not corruption of recycled state.
 func engineDivergence(sc *HScenario, lv *liveValue, op *Op, hb [][]byte, hs []string, got string) bool {
+	var refs []string
 	for _, k := range []Knobs{{NoDFA: true, NoPrefilter: true}, {}} {
 		k.Longest = lv.longest
 		ref, err := compile(sc.Pattern, k)
 		if err != nil {
 			continue
 		}
-		if execOp(ref, op, hb, hs) == got {
+		r := execOp(ref, op, hb, hs)
+		if r == got {
 			return true
 		}
+		refs = append(refs, r)
 	}
-	return false
+	// The two fresh references disagree with each other on this very call: the engines
+	// diverge on this input (a pure defect), and an enumeration on a used value may mix
+	// answers of both (part of it served by the DFA, part by its NFA fallback).
+	return len(refs) == 2 && refs[0] != refs[1]
 }
 
 // abstractState summarises the recycled state that will serve the next call on re.
